@@ -6,9 +6,9 @@ import ast
 from ..absval import Lin, Undecided
 from ..core import (AnalysisError, call_name, const, dotted, is_const, kwarg, local_defs, norm,
                     origin, parent_map, walk_local)
-from ..facts import guards_of, mentions, recv_calls, returns_of, unpack_of, assigned_subscripts
+from ..facts import guards_of, mentions, recv_calls, returns_of, unpack_of, assigned_subscripts, enclosing_loops
 from ..rules.nonmut import is_deepcopy, mutations
-from ..pattern import pmatch, pfind
+from ..pattern import pmatch, pfind, pall
 from ..shape import SymTuple, atom, pretty, sym_eval, sym_tuple, tri, walk_paths
 
 SR = "synkit/Synthesis/Reactor/syn_reactor.py"
@@ -46,6 +46,7 @@ def run(rep):
     rep.run(parity)
     rep.run(schema)
     rep.run(wiring)
+    rep.run(strip_h)
 
 
 # ------------------------------------------------------------------ O3.1
@@ -500,3 +501,82 @@ TWINS = [
          old="new_r = host_r[:2] + (host_r[2],) + host_r[3:]", new="new_r = host_r[:3] + host_r[3:]"),
     dict(name="copy.deepcopy spelling", edits=[(SR, "host_g = deepcopy(host)", "import copy as _c\n        host_g = _c.deepcopy(host)")]),
 ]
+
+
+# ------------------------------------------------------------------ O3.7 hydrogen accounting when a rule's explicit hydrogens are folded
+def strip_h(rep):
+    """SynRule._strip_explicit_h removes explicit hydrogens from the rule's graphs and books each of them into the hcount of its
+    heavy neighbours.  A hydrogen that has no heavy neighbour on a side (a bare proton, or half of H-H) is booked nowhere there:
+    removing it makes the rule neither consume nor release it, and the reactions it returns are unbalanced in H and charge."""
+    from ..absval import _NOVALUE, Undecided, eval_function
+    fi = rep.f(RULE, "SynRule._strip_explicit_h")
+    ro = rep.f(RULE, "SynRule._strip_explicit_h.<locals>._removable_on")
+    fr = rep.f(RULE, "SynRule._strip_explicit_h.<locals>._fully_removable")
+    G, H = ro.params
+
+    def run(nbr_elems):
+        ids = tuple(range(len(nbr_elems)))
+
+        def hook(e, env):
+            if pmatch(f"{G}.neighbors({H})", e) is not None or pmatch(f"{G}[{H}]", e) is not None or pmatch(f"{G}.adj[{H}]", e) is not None:
+                return ids
+            if pmatch(f"{G}.degree({H})", e) is not None or pmatch(f"{G}.degree[{H}]", e) is not None:
+                return len(ids)
+            m = pmatch(f"{G}.nodes[$n].get('element')", e) or pmatch(f"{G}.nodes[$n]['element']", e)
+            if m is not None and m["n"] in env:
+                return nbr_elems[env[m["n"]]]
+            return _NOVALUE
+        return eval_function(ro.node, {"__resolve__": hook})
+    table, ok = {}, True
+    try:
+        for cfg_ in ((), ("H",), ("H", "H"), ("C",), ("H", "C"), ("O", "N")):
+            v = bool(run(cfg_))
+            table["+".join(cfg_) or "none"] = v
+            heavy = any(x != "H" for x in cfg_)
+            if v and not heavy:
+                ok = False
+    except Undecided as exc:
+        ok, table = None, {"undecided": str(exc)}
+    rep.ob("O3.7", "R15", ro, ok, "_removable_on(graph, h)",
+           "a hydrogen may be folded on a side only if it has a heavy neighbour there to carry it in hcount (never a bare proton, never a hydrogen bonded only to hydrogens)",
+           {"removable_by_neighbour_elements": table}, node=ro.node)
+    rets = returns_of(fr.node)
+    L, R = fi.params[1], fi.params[2]
+    okf = len(rets) == 1 and (pmatch(f"_removable_on({L}, $h) and _removable_on({R}, $h)", rets[0].value) is not None
+                              or pmatch(f"_removable_on({R}, $h) and _removable_on({L}, $h)", rets[0].value) is not None)
+    rep.ob("O3.7", "R15", fr, okf, rets[0] if rets else "return", "a hydrogen is folded only when BOTH sides can carry it")
+    # every removal of a hydrogen is licensed by _fully_removable and preceded by the booking loop
+    pm = parent_map(fi.node)
+    defs = local_defs(fi.node)
+    rms = [c for c in walk_local(fi.node) if isinstance(c, ast.Call) and call_name(c) in ("remove_node", "remove_nodes_from")]
+    rep.need("R15", len(rms), 2, "remove_node sites in _strip_explicit_h")
+    for c in rms:
+        h = norm(c.args[0]) if c.args else "?"
+        gs = guards_of(pm, c, fi.node, early=True)
+        licensed = any((pmatch(f"_fully_removable({h})", t) is not None and s_) for t, s_ in gs)
+        if not licensed:
+            # h iterates over a list that was filtered by _fully_removable
+            for l in enclosing_loops(pm, c, fi.node):
+                if norm(l.target) == h:
+                    src = origin(defs, l.iter)
+                    if any(isinstance(x, ast.Call) and call_name(x) == "_fully_removable" for x in ast.walk(src)):
+                        licensed = True
+        sibs = _siblings_of(pm, c)
+        booked = any(isinstance(st, ast.For) and pmatch(f"list($g.neighbors({h}))", st.iter) is not None or
+                     isinstance(st, ast.For) and pmatch(f"$g.neighbors({h})", st.iter) is not None for st in sibs) and \
+            any(pall([f"if $g.nodes[$n].get('element') != 'H':\n    $g.nodes[$n]['hcount'] += 1"], st) is not None
+                or pfind("$g.nodes[$n]['hcount'] += 1", st) for st in sibs if isinstance(st, ast.For))
+        rep.ob("O3.7", "R15", fi, licensed and booked, c, "a hydrogen node is removed only when licensed by _fully_removable and after it was booked into its heavy neighbours' hcount",
+               {"licensed": licensed, "booked": bool(booked)}, node=c)
+
+
+def _siblings_of(pm, call):
+    st = pm.get(call)
+    while st is not None and not isinstance(st, ast.stmt):
+        st = pm.get(st)
+    owner = pm.get(st)
+    for f in ("body", "orelse", "finalbody"):
+        lst = getattr(owner, f, None)
+        if isinstance(lst, list) and any(x is st for x in lst):
+            return lst
+    return []
